@@ -22,6 +22,7 @@ import (
 	"time"
 
 	"github.com/pingcap/kvproto/pkg/metapb"
+	"github.com/syndtr/goleveldb/leveldb"
 	"github.com/pingcap/kvproto/pkg/pdpb"
 	"github.com/tikv/pd/pkg/typeutil"
 	"github.com/tikv/pd/server"
@@ -37,7 +38,9 @@ import (
 const idSpan = 32 // ids of one sequence: base+1 .. base+idSpan-1
 
 type breq struct {
-	idx    int
+	idx     int
+	waiting bool // neither parked nor answered: it waits for another request inside the handler
+	goid    string
 	gate   *gcbootsrv.TxnGate
 	done   chan string
 	parked bool
@@ -64,6 +67,43 @@ type world struct {
 	idReqs  []*idreq
 	idVals  []uint64 // distinct values seen, in order of appearance
 	idGates []*gcbootsrv.GoGateKV
+	// region storage write fault: the good leveldb handles that have been swapped for a closed one
+	goodDB map[int]*leveldb.DB
+	deadDB *leveldb.DB
+}
+
+// regFault switches member m to its leader-local region storage (leveldb) and makes every write of it fail
+// ("leveldb: closed": the embedded DB handle is swapped for a closed one), or undoes both.
+func (w *world) regFault(m int, on bool) {
+	st := w.c.Srvs[m].S.GetStorage()
+	rs := st.GetRegionStorage()
+	if rs == nil {
+		return
+	}
+	if w.goodDB == nil {
+		w.goodDB = map[int]*leveldb.DB{}
+	}
+	if on {
+		if w.deadDB == nil {
+			db, err := leveldb.OpenFile(w.c.Srvs[0].Cfg.DataDir+"/verif-dead-leveldb", nil)
+			if err != nil {
+				panic(err)
+			}
+			db.Close()
+			w.deadDB = db
+		}
+		if _, done := w.goodDB[m]; !done {
+			w.goodDB[m] = rs.LeveldbKV.DB
+			rs.LeveldbKV.DB = w.deadDB
+		}
+		st.SwitchToRegionStorage()
+		return
+	}
+	if db, ok := w.goodDB[m]; ok {
+		rs.LeveldbKV.DB = db
+		delete(w.goodDB, m)
+	}
+	st.SwitchToDefaultStorage()
 }
 
 func ctx() context.Context { return context.Background() }
@@ -331,11 +371,25 @@ func (w *world) settleLeader(m int, wasRunning bool) {
 }
 
 func (w *world) finishPending() {
-	for _, r := range w.reqs {
-		if r.parked {
-			r.gate.Release <- "before"
-			r.result = <-r.done
-			r.parked = false
+	for round := 0; round < 3; round++ {
+		for _, r := range w.reqs {
+			if r.waiting {
+				select {
+				case <-r.gate.Parked:
+					r.waiting, r.parked = false, true
+				case r.result = <-r.done:
+					r.waiting = false
+				case <-time.After(time.Second):
+				}
+			}
+			if r.parked {
+				r.gate.Release <- "before"
+				select {
+				case r.result = <-r.done:
+				case <-time.After(10 * time.Second):
+				}
+				r.parked = false
+			}
 		}
 	}
 	for _, r := range w.idReqs {
@@ -354,6 +408,11 @@ func (w *world) finishPending() {
 func (w *world) reset(leader int) {
 	w.finishPending()
 	w.reqs, w.idReqs, w.idVals, w.idKey = nil, nil, nil, ""
+	for m := range w.c.Srvs {
+		if _, on := w.goodDB[m]; on {
+			w.regFault(m, false)
+		}
+	}
 	w.leadTo(leader)
 	// un-bootstrap: stop the raft clusters, remove the bootstrap keys
 	for _, s := range w.c.Srvs {
@@ -405,24 +464,36 @@ func (w *world) exec(op string) string {
 		q := &breq{idx: r, done: make(chan string, 1)}
 		q.gate = &gcbootsrv.TxnGate{Parked: make(chan struct{}, 4), Release: make(chan string, 4)}
 		w.reqs = append(w.reqs, q)
+		idc := make(chan string, 1)
 		go func() {
-			w.gates[m].RegisterID(gcbootsrv.GoID(), q.gate)
+			id := gcbootsrv.GoID()
+			idc <- id
+			w.gates[m].RegisterID(id, q.gate)
 			defer w.gates[m].Unregister()
 			q.done <- w.bootstrap(m, req)
 		}()
-		select {
-		case <-q.gate.Parked:
-			q.parked = true
-			return "parked"
-		case res := <-q.done:
-			q.result = res
-			return res
-		case <-time.After(30 * time.Second):
-			panic("boot: neither parked nor done")
+		q.goid = <-idc
+		deadline := time.Now().Add(5 * time.Second)
+		for spin := 0; ; spin++ {
+			select {
+			case <-q.gate.Parked:
+				q.parked = true
+				return "parked"
+			case res := <-q.done:
+				q.result = res
+				return res
+			default:
+			}
+			// not at its transaction and not answered: it waits for somebody else inside the handler
+			if (spin > 20 && gcbootsrv.WaitingIn(q.goid, "(*Server).Bootstrap")) || time.Now().After(deadline) {
+				q.waiting = true
+				return "waiting"
+			}
+			time.Sleep(200 * time.Microsecond)
 		}
 	case (len(f) == 2 || len(f) == 3) && f[0] == "commit":
 		r, ok := atoi(f[1])
-		if !ok || r < 0 || r >= len(w.reqs) || !w.reqs[r].parked {
+		if !ok || r < 0 || r >= len(w.reqs) || !(w.reqs[r].parked || w.reqs[r].waiting) {
 			return bad
 		}
 		fault := "none"
@@ -430,8 +501,26 @@ func (w *world) exec(op string) string {
 			fault = f[2]
 		}
 		q := w.reqs[r]
+		if q.waiting {
+			// a request that was waiting inside the handler: parked at its transaction by now, answered, or
+			// still waiting
+			select {
+			case <-q.gate.Parked:
+				q.waiting, q.parked = false, true
+			case res := <-q.done:
+				q.waiting = false
+				q.result = res
+				return res
+			case <-time.After(300 * time.Millisecond):
+				return "waiting"
+			}
+		}
 		q.gate.Release <- fault
-		q.result = <-q.done
+		select {
+		case q.result = <-q.done:
+		case <-time.After(20 * time.Second):
+			return "stuck"
+		}
 		q.parked = false
 		return q.result
 	case len(f) == 4 && f[0] == "bootnow":
@@ -504,6 +593,14 @@ func (w *world) exec(op string) string {
 			return errOut(err)
 		}
 		return strconv.FormatBool(resp.GetBootstrapped())
+	case len(f) == 3 && f[0] == "regfault" && (f[2] == "on" || f[2] == "off"):
+		// regfault <m> on|off: member m uses its local region storage and every write of it fails
+		m, ok := member(f[1])
+		if !ok {
+			return bad
+		}
+		w.regFault(m, f[2] == "on")
+		return "ok"
 	case len(f) == 4 && f[0] == "putconfig":
 		// putconfig <m> <header id> <body id>: PutClusterConfig with a metapb.Cluster naming a cluster id
 		m, ok1 := member(f[1])
@@ -890,6 +987,28 @@ func genOrders(w *world, t *trace.W, leader int, n int, order []int, f string) {
 	w.run(t, fmt.Sprintf("getconfig %d", 1-leader))
 }
 
+// genRegFault: the winner's leader-local region storage fails to write while it bootstraps: the request must
+// still be answered consistently with what is stored, and later requests see a bootstrapped cluster.
+func genRegFault(w *world, t *trace.W, r *rng.R) {
+	leader := r.Intn(2)
+	w.run(t, fmt.Sprintf("reset %d", leader))
+	w.run(t, fmt.Sprintf("regfault %d on", leader))
+	a, b := r.Intn(3), 3
+	if r.Bool(1, 2) {
+		w.run(t, fmt.Sprintf("boot 0 %d own %s", leader, goodPayloads[a]))
+		w.run(t, fmt.Sprintf("boot 1 %d own %s", leader, goodPayloads[(a+1)%3]))
+		w.run(t, fmt.Sprintf("commit %d", r.Intn(2)))
+		w.run(t, "commit 0")
+		w.run(t, "commit 1")
+	} else {
+		w.run(t, fmt.Sprintf("bootnow %d own %s", leader, goodPayloads[a]))
+	}
+	w.run(t, fmt.Sprintf("isboot %d own", leader))
+	w.run(t, fmt.Sprintf("bootnow %d own %s", leader, goodPayloads[b]))
+	w.run(t, fmt.Sprintf("regfault %d off", leader))
+	w.run(t, fmt.Sprintf("isboot %d own", leader))
+}
+
 func genRandom(w *world, t *trace.W, r *rng.R, maxOps int) {
 	leader := r.Intn(2)
 	w.run(t, fmt.Sprintf("reset %d", leader))
@@ -898,7 +1017,7 @@ func genRandom(w *world, t *trace.W, r *rng.R, maxOps int) {
 	for k := 0; k < ops; k++ {
 		var parked []int
 		for _, q := range w.reqs {
-			if q.parked {
+			if q.parked || q.waiting {
 				parked = append(parked, q.idx)
 			}
 		}
@@ -990,10 +1109,12 @@ func genRandom(w *world, t *trace.W, r *rng.R, maxOps int) {
 			}
 		}
 	}
-	// finish what is parked
-	for _, q := range w.reqs {
-		if q.parked {
-			w.run(t, fmt.Sprintf("commit %d", q.idx))
+	// finish what is parked (or waits inside the handler)
+	for round := 0; round < 2; round++ {
+		for _, q := range w.reqs {
+			if q.parked || q.waiting {
+				w.run(t, fmt.Sprintf("commit %d", q.idx))
+			}
 		}
 	}
 	for i, q := range w.idReqs {
@@ -1050,6 +1171,9 @@ func main() {
 		}
 	}
 	for s := 0; s < *n; s++ {
+		if s%8 == 0 {
+			genRegFault(w, t, r)
+		}
 		genRandom(w, t, r, *maxOps)
 	}
 	w.finishPending()
